@@ -785,6 +785,11 @@ def verify_directory_hash_subcommand(
                     content_hash = None
                     structure_hash = None
 
+                    # entries recorded in a format that is not calculated in this run (e.g. by a nested history
+                    # that was created with another format) cannot be compared
+                    if directory_hash_entry.hash_format not in hash_format_list:
+                        continue
+
                     if content_hash_lookup:
                         content_hash = content_hash_lookup[directory_hash_entry.hash_format]
                     if structure_hash_lookup:
@@ -860,6 +865,8 @@ def verify_directory_hash_subcommand(
                 if len(root_hash_entries) > 0:
                     for root_hash_entry in root_hash_entries:
                         hash_format = root_hash_entry.hash_format
+                        if hash_format not in hash_format_list:
+                            continue
                         found_hash_format = False
                         dir_content_hash = None
                         dir_structure_hash = None
